@@ -63,6 +63,7 @@ pub fn length_sweep(ctx: &mut Ctx) {
     number_text_probes(ctx);
     aliased_operand_probes(ctx);
     deep_path_probes(ctx);
+    lexer_key_probes(ctx);
     index_spelling_probes(ctx);
     element_scope_probes(ctx);
     every_operand_probes(ctx);
@@ -1020,7 +1021,7 @@ pub fn deep_path_probes(ctx: &mut Ctx) {
     }
     let d = json!({"s": "abc", "name": "B\u{e9}", "xs": ["apple", "banana"], "o": {"t": "xy"}, "e": "",
                    "customer": {"address": {"city": "Oslo", "road": "Storgata", "zipc": "0155", "name": "Home"}, "account": {"iban": "NO93", "bic0": "DNBA"}}});
-    let paths = ["s.0.0", "s.1.0", "s.-1.-1", "s.0.0.0.0", "xs.1.2.0", "o.t.1.0", "name.1.0", "s.0.x", "s.1.1", "s.0.1", "s.3.0", "s.0.-2", "e.0.0", "xs.0.9.0", "name.0.name", "o.t.0.t"];
+    let paths = ["s.0", "s.-1", "name.1", "xs.0.0", "s.3", "e.0", "s.0.0", "s.1.0", "s.-1.-1", "s.0.0.0.0", "xs.1.2.0", "o.t.1.0", "name.1.0", "s.0.x", "s.1.1", "s.0.1", "s.3.0", "s.0.-2", "e.0.0", "xs.0.9.0", "name.0.name", "o.t.0.t"];
     if ctx.mine() {
         for p in paths {
             ctx.edge();
@@ -1031,6 +1032,8 @@ pub fn deep_path_probes(ctx: &mut Ctx) {
                 "C05" | "C06" => vec![
                     json!({"if": [v, "then", "else"]}), json!({"if": [vd, "then", "else"]}), json!({"or": [vz, "fallback"]}), json!({"and": [v, "next"]}), json!({"if": [v, {"var": [[1]]}, "else"]}),
                     json!({"?:": [vd, 1, 2]}), json!({"!": [v]}), json!({"!!": [vd]}), json!({"if": [false, 0, v, "b", "c"]}), json!({"filter": [[1, 2], v]}),
+                    json!({"all": [[1], v]}), json!({"some": [[1], v]}), json!({"none": [[1], v]}), json!({"filter": [["abc", "", "0", "xyz"], {"var": p.trim_start_matches("s.").trim_start_matches("xs.0.")}]}),
+                    json!({"some": [{"var": "xs"}, {"var": p.trim_start_matches("s.")}]}),
                 ],
                 "C11" | "C04" => vec![v.clone(), vd.clone(), json!({"var": [p, "dflt"]}), json!({"cat": ["<", v, ">"]}), json!({"var": [{"cat": [p]}, "dflt"]})],
                 "C12" => vec![json!({"missing": [p]}), json!({"missing": [p, "zz", "s.0"]}), json!({"missing": [p, "s", "o.t", "o", "xs.1"]}), json!({"missing": ["name.first.initial", "o.t", "o", p]}),
@@ -1426,6 +1429,45 @@ pub fn nested_same_kind_probes(ctx: &mut Ctx) {
                         ctx.check("nested-same-kind", &r, &d);
                     }
                 }
+            }
+        }
+    }
+}
+
+/// Keys in every state of the path lexer (an escape character that does not precede a separator, at the end, alone;
+/// escaped separators; doubled, leading and trailing separators; the empty key) as the WHOLE condition of a lazy
+/// operator, the whole predicate and the whole per-element expression, over data / elements that hold both the raw
+/// spelling and the unescaped name with different values and different truthiness: a second recogniser of "plain"
+/// keys must agree with the real lexer on every metacharacter.
+pub fn lexer_key_probes(ctx: &mut Ctx) {
+    let prop = ctx.prop.clone();
+    if !["C05", "C06", "C13", "C14"].contains(&prop.as_str()) {
+        return;
+    }
+    let keys = ["a\\b", "\\", "x\\", "\\a", "a\\\\b", "a\\.b", "a.b", ".a", "a.", "a..b", "", ".", "C:\\tmp", "C:\\\\tmp", "ab", "a\\b.c", "k\\"];
+    let obj = |flip: bool| -> Value {
+        let (t, f) = if flip { (json!(0), json!("T")) } else { (json!("T"), json!(0)) };
+        json!({"ab": t, "a\\b": f, "a": {"b": t, "": f}, "a.b": f, "": {"a": t, "": f}, "x": t, "x\\": f, "\\": f, "\\a": f, "C:tmp": t, "C:\\tmp": f, "k": t, "abc": f, "ab.c": f, "a\\b.c": t, ".a": f, "a.": f})
+    };
+    for k in keys {
+        if !ctx.mine() {
+            continue;
+        }
+        let v = json!({ "var": k });
+        for flip in [false, true] {
+            ctx.edge();
+            let d = obj(flip);
+            let elems = json!([obj(flip), obj(!flip), {"other": 3}, "str"]);
+            let rules: Vec<Value> = match prop.as_str() {
+                "C05" | "C06" => vec![json!({"if": [v, "then", "else"]}), json!({"if": [v, "then", {"in": [1, 2]}]}), json!({"if": [v, {"in": [1, 2]}, "else"]}), json!({"?:": [v, "then", "else"]}), json!({"and": [v, "next"]}), json!({"or": [v, "next"]}),
+                                      json!({"!": [v]}), json!({"!!": v}), json!({"if": [false, 0, v, "b", "c"]}), json!({"if": [v]})],
+                "C13" => vec![json!({"map": [elems, v]}), json!({"filter": [elems, v]}), json!({"reduce": [elems, {"merge": [{"var": "accumulator"}, [{"var": format!("current.{}", k)}]]}, []]}), json!({"map": [{"var": "es"}, v]})],
+                _ => vec![json!({"all": [elems, v]}), json!({"some": [elems, v]}), json!({"none": [elems, v]}), json!({"some": [{"var": "es"}, v]})],
+            };
+            let mut dd = d.clone();
+            dd["es"] = elems.clone();
+            for r in rules {
+                ctx.check("lexer-keys:whole-condition", &r, &dd);
             }
         }
     }
